@@ -4,6 +4,7 @@
 //       destroy-mode 0: wait until everything dispatched was handled, then destroy
 //                    1: destroy while items may still be queued / a handler is running
 //   Q <consumers> <items> <yield-seed>     queue alone: consumers block in wait_and_pop, then wake_up()
+//   P <consumers> <seed>                   queue alone: every consumer pops once, the items are pushed in one burst
 // Output per line: the linearised event log  (d<p>.<i> dispatch about to be called, h<p>.<i>@<w> handler begins on worker w, e<p>.<i>@<w> handler ends,
 // X destruction begins, Y destruction done), plus summary flags.
 #ifdef PROBE_WIDEN_CONDWAIT
@@ -147,6 +148,26 @@ int main() {
             q.wake_up();
             for (auto& t : cs) t.join();
             std::cout << " | got=" << got.load() << " released=" << released.load() << "\n";
+        }
+        else if (cmd == "P") {
+            // every consumer pops exactly one item; the items arrive in one burst: each waiting consumer must get one
+            int consumers; unsigned seed;
+            is >> consumers >> seed;
+            threadsafe_queue<int> q;
+            std::atomic<int> got{0}, entered{0};
+            std::vector<std::thread> cs;
+            for (int c = 0; c < consumers; ++c)
+                cs.emplace_back([&] { entered.fetch_add(1); auto p = q.wait_and_pop(); if (p) got.fetch_add(1); });
+            std::mt19937 r(seed);
+            while (entered.load() < consumers) std::this_thread::sleep_for(std::chrono::microseconds(50));
+            if (seed % 2) std::this_thread::sleep_for(std::chrono::milliseconds(2));   // consumers blocked / about to block
+            for (int i = 0; i < consumers; ++i) q.push(i);
+            auto deadline = std::chrono::steady_clock::now() + std::chrono::seconds(3);
+            while (got.load() < consumers && std::chrono::steady_clock::now() < deadline) std::this_thread::sleep_for(std::chrono::microseconds(100));
+            int before = got.load();
+            q.wake_up();
+            for (auto& t : cs) t.join();
+            std::cout << " | got=" << before << " consumers=" << consumers << "\n";
         }
         std::cout.flush();
     }
